@@ -179,6 +179,28 @@ async def abandoned_child_context():
 
 
 @scenario
+async def block_fails_with_a_child_still_open():
+    import anyio
+    from asphalt.core import Context
+    async with Context():
+        for failure in (ValueError("request failed"), KeyError("missing")):
+            kept = []
+            try:
+                async with Context() as parent:
+                    parent.add_resource(A())
+
+                    async def helper():
+                        child = Context()
+                        await child.__aenter__()
+                        kept.append(child)       # still referred to, still open when the block of its parent fails
+                    async with anyio.create_task_group() as tg:
+                        tg.start_soon(helper)
+                    raise failure
+            except (RuntimeError, ValueError, KeyError):
+                pass                          # "context stack corruption", chained to the failure of the block
+
+
+@scenario
 async def leaving_fails_then_more_contexts():
     import anyio
     from asphalt.core import Context, add_resource, get_resources
